@@ -18,7 +18,7 @@ import deribit_lib as L
 from common import Ctx, driver_json
 
 PROPERTY = "C16"
-LEAN_MODULES = ["Proofs.C16", "Proofs.C16.Run", "Proofs.C16.Trades", "Proofs.C16.General"]
+LEAN_MODULES = ["Proofs.C16", "Proofs.C16.Run", "Proofs.C16.Trades", "Proofs.C16.General", "Proofs.C16.Guard", "Proofs.C16.Hooks", "Proofs.C16.HooksRun"]
 DRIVERS = ["driver_deribit"]
 RULE = ("whole backtests through Actuator.run: 2-5 hours at interval 1min (with a minutely Uniswap co-market), 3-8 hours at 5min / 1h, 6-14 hours at "
         "2h / 4h (resampled option data, whole coarse bars without option data); calls and puts, strikes around the underlying path and around the "
